@@ -12,7 +12,9 @@ import copy
 # members that must not be touched (identity of the configuration)
 FROZEN_KEYS = {"prop", "op", "k", "side", "policy", "kind", "scenario", "recipe", "type", "style"}
 # members that may be deleted entirely
-OPTIONAL_KEYS = {"fault", "faults", "nullzero", "crash"}
+OPTIONAL_KEYS = {"fault", "faults", "nullzero", "crash", "override"}
+# lists that are one unit: never reduced element by element
+ATOMIC_LISTS = {"first", "second", "words"}
 
 
 class Budget(Exception):
@@ -110,8 +112,8 @@ def shrink_scalars(ctx, plan):
         key = path[-1]
         if isinstance(key, str) and key in FROZEN_KEYS:
             continue
-        if "switches" in path:
-            continue  # entries of an explicit schedule are removed, not edited
+        if "switches" in path or any(k in ATOMIC_LISTS for k in path if isinstance(k, str)):
+            continue  # entries of an explicit schedule / atomic lists are removed as a whole, not edited
         try:
             cur = get(plan, path)
         except (KeyError, IndexError, TypeError):
@@ -163,7 +165,8 @@ def minimise(plan, test, budget=400):
         for _ in range(6):
             before = copy.deepcopy(plan)
             # lists, outermost and longest first
-            list_paths = [p for p, v in paths(plan) if isinstance(v, list) and len(v) > 0]
+            list_paths = [p for p, v in paths(plan) if isinstance(v, list) and len(v) > 0
+                          and not (p and p[-1] in ATOMIC_LISTS)]
             list_paths.sort(key=lambda p: (len(p), -len(get(plan, p))))
             for lp in list_paths:
                 try:
